@@ -1,6 +1,6 @@
 (** C12 — a bounded mailbox exerts backpressure on send; unbounded and stop never wait.
     Statements only; proofs live in Inv/. *)
-From Hannibal Require Import Model.Sys Inv.Mailbox Inv.SysOk Inv.C12 Chk.C12.
+From Hannibal Require Import Model.Sys Inv.Mailbox Inv.SysOk Inv.C12 Chk.C12 Inv.C12b.
 
 (** On every execution the model accepts — any number of actors, clients, handles, any
     interleaving, any length — at every moment the sends that have returned Ok and whose message
@@ -61,3 +61,13 @@ Definition ex12_bad : list event :=
   firstn 5 ex12 ++ [EvRet 1 ROk] ++ firstn 5 (skipn 5 ex12) ++ skipn 11 ex12.
 Example C12_acceptor_rejects : chk_C12 ex12_bad = false /\ accepts ex12_bad = false.
 Proof. vm_compute. auto. Qed.
+
+(** A send does not return while the actor is more than n behind, at the event itself: the
+    return of an operation on the waiting path (send, a call through a [Caller], a broker's
+    clone) is accepted only when that operation is no longer parked on the mailbox - whatever
+    polls its future meanwhile, and whether or not a stop request has been queued behind it. *)
+Theorem C12_a_parked_send_does_not_return :
+  forall s o r s' p x, step s (EvRet o r) = Acc s' -> ops s o = Some p -> op_reg p = None ->
+  actors s (op_a p) = Some x -> op_imm p = None -> op_w p = true -> parked_op x o = false.
+Proof. exact parked_send_does_not_return. Qed.
+Print Assumptions C12_a_parked_send_does_not_return.
